@@ -158,6 +158,24 @@ def run(ctx):
                         ctx.check(ok, "D1-KEY-FIELD", DK, "field=%s" % f, "%s <- %s (%s, written with control flow)" % (f, key, c["kind"]), why, fn_span(body))
                         alt_seen.setdefault(f, set()).add(present)
                         continue
+                if c["kind"] == "list" and not is_call(strip_refs(t), "Option::map_or", "Option::map_or_else", "Option::unwrap_or_default", "Option::unwrap_or", "Option::unwrap_or_else"):
+                    # the infallible list written as `match map.get(key) { Some(v) => v.split_whitespace().map(f).collect(), None => Vec::new() }`
+                    G = [strip_refs(x.term[1]) for x in p.conds() if x.term[0] == "discr" and is_call(strip_refs(x.term[1]), "HashMap::get") and const_str(call_args(strip_refs(x.term[1]))[1]) == key]
+                    if G:
+                        g = G[-1]
+                        fact = [x.fact for x in p.conds() if x.term[0] == "discr" and strip_refs(x.term[1]) == g][-1]
+                        present = fact == ("eq", 1)
+                        t0 = strip_refs(t)
+                        if not present:
+                            ok = is_call(t0, "Vec::new", "Vec::<T>::new", "Default>::default") or (agg_variant(t0) is None and is_call(t0, "into_vec") and False)
+                        else:
+                            sw = find_calls(t0, "str>::split_whitespace")
+                            ok = is_call(t0, "::collect") and len(sw) == 1 and only_maps(t0) and \
+                                mentions(call_args(sw[0])[0], lambda s_: len(s_) > 2 and s_[0] == "field" and s_[2] == 0 and isinstance(s_[1], tuple) and s_[1][:1] == ("downcast",) and s_[1][2] == "Some" and strip_refs(s_[1][1]) == g)
+                        why = "list %s is not `empty when %s is absent, else its whitespace-separated items in order`" % (f, key)
+                        ctx.check(ok, "D1-KEY-FIELD", DK, "field=%s" % f, "%s <- %s (list, written with control flow)" % (f, key), why, fn_span(body))
+                        alt_seen.setdefault(f, set()).add(present)
+                        continue
                 if ok:
                     kind = c["kind"]
                     if kind == "optional":
